@@ -25,7 +25,7 @@ VIEW View
 CHECK_DEADLOCK FALSE
 """
 PARSE_PLANS = ["struct", "lex", "members", "deep", "edits"]
-STR_PLANS = ["shape", "leaves", "indent", "proxy", "keys"]
+STR_PLANS = ["shape", "leaves", "indent", "proxy", "keys", "keysurr"]
 INIT = {"plan": "none", "n": 0}
 
 
@@ -37,7 +37,7 @@ def groups(thorough):
     """Each group is one TLC run + one walker run; groups run concurrently."""
     if not thorough:
         return [PARSE_PLANS, STR_PLANS]
-    return [["struct"], ["lex", "lexnum"], ["lexstr", "members", "deep"], ["edits", "editlex"], ["shape", "proxy", "indent"], ["leaves", "keys"]]
+    return [["struct"], ["lex", "lexnum"], ["lexstr", "members", "deep"], ["edits", "editlex"], ["shape", "proxy", "indent"], ["leaves", "keys", "keysurr"]]
 
 
 def diagnose(mm):
